@@ -118,12 +118,30 @@ def keepAt (xs : List Nat) (P : Option (List Nat)) : List Nat :=
   | Option.none => xs
   | some p => ((List.range xs.length).filter (fun i => p.contains i)).map (fun i => xs.getD i 0)
 
-/-- `ReadParquetFSSpec._get_lengths` after `_update_length_statistics` on a plan that carries statistics:
-    the statistics are filtered by position when cached, and the cached tuple is filtered by position AGAIN -/
-def pqLengths (stats : List Nat) (P : Option (List Nat)) : List Nat := keepAt (keepAt stats P) P
+/-- `sorted(set(P))` -/
+def sortedSet (P : List Nat) : List Nat := (List.range (P.foldl max 0 + 1)).filter (fun i => P.contains i)
 
-/-- `ReadParquetPyarrowFS._get_lengths`: every file, whatever `_partitions` says -/
-def pqLengthsArrow (stats : List Nat) (_P : Option (List Nat)) : List Nat := stats
+/-- `[d[i] for i in P]` for the dict `d = dict(zip(keys, vals))`; `none` = KeyError -/
+def lookupAll (keys vals : List Nat) : List Nat → Option (List Nat)
+  | [] => some []
+  | i :: t => match (keys.zip vals).lookup i, lookupAll keys vals t with
+      | some v, some r => some (v :: r)
+      | _, _ => Option.none
+
+/-- `ReadParquetFSSpec._get_lengths` (as fixed by D63) after `_update_length_statistics` on a plan that carries
+    statistics: the cached statistics hold one entry per DISTINCT selected partition in dataset order
+    (`keepAt`); they are mapped back to the order of the selection through `dict(zip(sorted(set(P)), cached))` -/
+def pqLengths (stats : List Nat) (P : Option (List Nat)) : Option (List Nat) :=
+  match P with
+  | Option.none => some stats
+  | some p => lookupAll (sortedSet p) (keepAt stats P) p
+
+/-- `ReadParquetPyarrowFS._get_lengths` (D63): `[lengths[i] for i in self._partitions]` on the file lengths in
+    fragment order; `none` = IndexError -/
+def pqLengthsArrow (stats : List Nat) (P : Option (List Nat)) : Option (List Nat) :=
+  match P with
+  | Option.none => some stats
+  | some p => Parts.pick stats p
 
 /-- the lengths the filtered reader's partitions really have -/
 def trueLengths (stats : List Nat) (P : Option (List Nat)) : List Nat :=
